@@ -375,87 +375,102 @@ def _status_test(t, var, const, ops):
     return False
 
 
-def search_loop(model):
-    """(func, cfg, loop head, user-offer node, call, result var, callee var) of the outward search in dispatch"""
+def outcome_rules(run, model, rule='HSM-OUTCOME'):
     hep = processor(model)
     f = hep.methods.get('dispatch')
     if f is None:
         raise AnalysisError('HsmEventProcessor.dispatch not found')
     g = cfg_of(f)
+    run.touch(f, g)
+    selfn = f.params[0]
     sites = classify_sites(f, user_params=f.params[1:2])
     users = [(n, c) for n, c, txt, sigs in sites if sigs == {'USER'}]
-    if len(users) != 1:
-        raise AnalysisError('dispatch: expected exactly one site that offers the caller\'s event, found %d' % len(users))
-    un, uc = users[0]
-    heads = [h for h in g.loop_heads() if un in g.loop_body(h)]
-    if len(heads) != 1:
-        raise AnalysisError('dispatch: the event offer is not inside exactly one loop')
-    if not (isinstance(un.ast, ast.Assign) and len(un.ast.targets) == 1 and isinstance(un.ast.targets[0], ast.Name) and un.ast.value is uc):
-        raise AnalysisError('dispatch: the result of the event offer is not bound to a local')
-    rv = un.ast.targets[0].id
-    cv = uc.func.id if isinstance(uc.func, ast.Name) else None
-    return f, g, heads[0], un, uc, rv, cv, sites
-
-
-def outcome_rules(run, model, rule='HSM-OUTCOME'):
-    f, g, h, un, uc, rv, cv, sites = search_loop(model)
-    selfn = f.params[0]
-    body = g.loop_body(h)
-    start = [m for m, l in g.succ[h] if l == 'true']
-    run.touch(f, g)
-    # (a) search loop shape
-    breaks = [n for n in g.nodes if n.kind == 'stmt' and isinstance(n.ast, ast.Break) and any(x is n.ast for x in ast.walk(h.stmt))]
-    exits_ok = bool(breaks) or not (isinstance(h.ast, ast.Constant) and h.ast.value is True)
-    per_iter = g.count_on_paths(lambda n: 1 if n is un else 0, start=start[0], end=h) if start else None
-    per_iter_b = [g.count_on_paths(lambda n: 1 if n is un else 0, start=start[0], end=b, edge_ok=lambda a_, b_, l_: b_ is not h) for b in breaks]
-    ok = per_iter in ((1, 1), None) and all(c == (1, 1) for c in per_iter_b) and (per_iter is not None or per_iter_b)
-    run.inst(rule + '.search', f, 'the event is offered exactly once per level', ok,
-             '' if ok else 'an iteration of the outward search offers the event %s/%s times to the state' % (per_iter, per_iter_b), node=uc, obligation=True)
-    # the offered-to state is the cursor read at the top of the iteration
+    if not users:
+        raise AnalysisError('dispatch: no site offers the caller\'s event to a state')
+    rvs = set()
+    for un, uc in users:
+        if not (isinstance(un.ast, ast.Assign) and len(un.ast.targets) == 1 and isinstance(un.ast.targets[0], ast.Name) and un.ast.value is uc):
+            raise AnalysisError('dispatch: the result of the event offer %s is not bound to a local' % norm(uc))
+        rvs.add(un.ast.targets[0].id)
+    if len(rvs) != 1:
+        raise AnalysisError('dispatch: event offers bind their answers to different locals %s' % sorted(rvs))
+    rv = rvs.pop()
+    tran_tests = [t for t in g.nodes if t.kind == 'test' and (_status_test(t, rv, 'TRAN', (ast.GtE, ast.Eq, ast.Is)))]
+    if len(tran_tests) != 1:
+        raise AnalysisError('dispatch: expected one `result >= TRAN` outcome test, found %d' % len(tran_tests))
+    tt = tran_tests[0]
+    unodes = [n for n, c in users]
     rd, valmap = reaching_defs(g, f.params)
-    ok = False
-    if cv is not None:
-        ds = rd[un].get(cv, set())
-        vals = [valmap.get(d) for d in ds if d[0] != 'param']
-        ok = bool(vals) and all(v is not None and dotted(v) == selfn + '.temp.fun' for v in vals) and len(vals) == len(ds)
-    else:
-        ok = dotted(uc.func) == selfn + '.temp.fun'
-    run.inst(rule + '.search', f, 'each level offers to the state the cursor points at', ok,
-             '' if ok else 'the state the event is offered to is not re-read from the cursor (temp.fun) at each level: the search does not move outward', node=uc, obligation=True)
-    # the cursor is not rewritten by the processor inside the loop (only handlers move it)
-    cw = [n for n in body if n.kind == 'stmt' and isinstance(n.ast, ast.Assign) and any(dotted(t) == selfn + '.temp.fun' for t in n.ast.targets)]
-    run.inst(rule + '.search', f, 'only handlers move the cursor during the search', not cw, 'dispatch rewrites temp.fun inside the search loop', obligation=True)
-    # EMPTY re-ask
-    empties = [(n, c) for n, c, txt, sigs in sites if sigs == {'EMPTY'} and n in body]
-    ok = len(empties) == 1
-    run.inst(rule + '.search', f, 'one guard-fallback re-ask (EMPTY) in the search loop', ok,
-             '' if ok else 'the search loop has %d EMPTY re-asks: a state that declines the event (UNHANDLED, e.g. a failed guard) no longer passes it to its parent' % len(empties), obligation=True)
+    # the search region: everything between an offer and the outcome test
+    region = set()
+    for un in unodes:
+        region |= g.reachable(un, avoiding=[tt])
+    region = {n for n in region if g.exists_path(n, tt) or n is tt}
+    un_tests = [t for t in region if t.kind == 'test' and _status_test(t, rv, 'UNHANDLED', (ast.Eq, ast.Is))]
+    empties = [(n, c) for n, c, txt, sigs in sites if sigs == {'EMPTY'} and n in region]
+    for un, uc in users:
+        key = occurrence_key(uc, f)
+        others = [x for x in unodes if x is not un]
+        # S1: offered to the state the cursor points at
+        cv = uc.func.id if isinstance(uc.func, ast.Name) else None
+        if cv is not None:
+            ds = rd[un].get(cv, set())
+            vals = [valmap.get(d) for d in ds if d[0] != 'param']
+            ok = bool(vals) and all(v is not None and dotted(v) == selfn + '.temp.fun' for v in vals) and len(vals) == len(ds)
+        else:
+            ok = dotted(uc.func) == selfn + '.temp.fun'
+        run.inst(rule + '.search', f, 'offer %s goes to the state the cursor points at' % key, ok,
+                 '' if ok else 'the state the event is offered to is not re-read from the cursor (temp.fun) before this offer: the search does not move outward', node=uc, obligation=True)
+        # S2: an UNHANDLED answer is re-asked with EMPTY before it can leave the search
+        leak = g.exists_path(un, tt, avoiding=un_tests + others)
+        run.inst(rule + '.search', f, 'an UNHANDLED answer to %s is always re-asked (guard fallback)' % key, not leak,
+                 '' if not leak else ('the answer of %s can reach the outcome switch without passing a `== UNHANDLED` test: when this state declines the event (a failed guard) '
+                                      'the event is neither passed to its parent nor reported as ignored - it is silently swallowed' % norm(uc)), node=uc, obligation=True)
+        # S3: the search is left only when the answer is not SUPER
+        def not_super_edge(a, b, lab):
+            if a.kind == 'test':
+                if _status_test(a, rv, 'SUPER', (ast.NotEq, ast.IsNot)) and lab == 'true':
+                    return False
+                if _status_test(a, rv, 'SUPER', (ast.Eq, ast.Is)) and lab == 'false':
+                    return False
+            return b not in others
+        leak = tt in g.reachable(un, edge_ok=not_super_edge)
+        run.inst(rule + '.search', f, 'after %s the search ends only when the answer is not SUPER' % key, not leak,
+                 '' if not leak else 'the outcome switch can be reached from %s without the answer having been tested against SUPER: a state that names its parent stops the bubbling'
+                 % norm(uc), node=uc, obligation=True)
+    # the UNHANDLED tests lead to an EMPTY re-ask of the same state whose answer replaces the steering variable
+    run.inst(rule + '.search', f, 'guard fallback present', bool(un_tests) and bool(empties),
+             '' if un_tests and empties else 'the search has no UNHANDLED -> EMPTY re-ask: a state that declines the event (failed guard) no longer passes it to its parent', obligation=True)
+    ucallees = {norm(c.func) for n, c in users}
+    for t in un_tests:
+        mine = [(n, c) for n, c in empties if guarded_by_edge(g, n, t, 'true')]
+        ok = len(mine) >= 1
+        run.inst(rule + '.search', f, 're-ask exactly when the state answered UNHANDLED', ok, 'an UNHANDLED test has no EMPTY re-ask on its true branch', node=t.ast, obligation=True)
+        for n, c in mine:
+            ok = isinstance(n.ast, ast.Assign) and len(n.ast.targets) == 1 and isinstance(n.ast.targets[0], ast.Name) and n.ast.targets[0].id == rv and n.ast.value is c
+            run.inst(rule + '.search', f, 'the re-ask result replaces the result that steers the search', ok,
+                     '' if ok else 'the result of the EMPTY re-ask is not assigned to the search\'s status variable: the search still sees UNHANDLED, leaves, and the event is dropped', node=c, obligation=True)
+            ok = norm(c.func) in ucallees
+            run.inst(rule + '.search', f, 'the re-ask goes to the same state', ok, 're-ask goes to %s' % norm(c.func), node=c, obligation=True)
     for n, c in empties:
-        tests = [t for t in body if t.kind == 'test' and _status_test(t, rv, 'UNHANDLED', (ast.Eq, ast.Is)) and guarded_by_edge(g, n, t, 'true')]
-        ok = bool(tests)
-        run.inst(rule + '.search', f, 're-ask exactly when the state answered UNHANDLED', ok, 'the EMPTY re-ask is not guarded by `result == UNHANDLED`', node=c, obligation=True)
-        ok = isinstance(n.ast, ast.Assign) and len(n.ast.targets) == 1 and isinstance(n.ast.targets[0], ast.Name) and n.ast.targets[0].id == rv and n.ast.value is c
-        run.inst(rule + '.search', f, 'the re-ask result replaces the result that steers the loop', ok,
-                 '' if ok else 'the result of the EMPTY re-ask is not assigned to the loop\'s status variable: the loop still sees UNHANDLED, leaves, and the event is dropped', node=c, obligation=True)
-        ok = norm(c.func) == norm(uc.func)
-        run.inst(rule + '.search', f, 'the re-ask goes to the same state', ok, 're-ask goes to %s' % norm(c.func), node=c, obligation=True)
-        ok = g.dominates(un, n)
-        run.inst(rule + '.search', f, 'the re-ask follows the offer', ok, 're-ask precedes the offer', node=c, obligation=True)
-    other = [(n, c) for n, c, txt, sigs in sites if n in body and n is not un and (n, c) not in empties]
-    run.inst(rule + '.search', f, 'no other handler call in the search loop', not other, 'additional handler calls in the search loop: %s' % [norm(c) for n, c in other], obligation=True)
-    # exit condition
-    for b in breaks:
-        tests = [t for t in body if t.kind == 'test' and ((_status_test(t, rv, 'SUPER', (ast.NotEq, ast.IsNot)) and guarded_by_edge(g, b, t, 'true')) or
-                                                         (_status_test(t, rv, 'SUPER', (ast.Eq, ast.Is)) and guarded_by_edge(g, b, t, 'false')))]
-        ok = bool(tests)
-        run.inst(rule + '.search', f, 'the search ends exactly when the answer is not SUPER', ok,
-                 '' if ok else 'the search loop is left under a condition other than `result != SUPER`: states that answer SUPER stop the bubbling, or handled events keep bubbling',
-                 node=b.ast, obligation=True)
-        # the exit test comes after the re-ask
-        for n, c in empties:
-            ok = all(g.exists_path(n, t) for t in tests) if tests else False
-            run.inst(rule + '.search', f, 'the exit test sees the re-asked result', ok, 'the loop exit is tested before the EMPTY re-ask', node=b.ast, obligation=True)
-    run.inst(rule + '.search', f, 'the search loop has an exit', bool(breaks) or not isinstance(h.ast, ast.Constant), 'no exit', obligation=True)
+        ok = any(guarded_by_edge(g, n, t, 'true') for t in un_tests)
+        run.inst(rule + '.search', f, 'EMPTY is sent only as the UNHANDLED fallback', ok, 'an EMPTY query is sent without the state having answered UNHANDLED', node=c, obligation=True)
+    # S4: a SUPER answer leads to another offer
+    sup_tests = [t for t in region if t.kind == 'test' and (_status_test(t, rv, 'SUPER', (ast.NotEq, ast.IsNot, ast.Eq, ast.Is)))]
+    ok = False
+    for t in sup_tests:
+        lab = 'false' if _status_test(t, rv, 'SUPER', (ast.NotEq, ast.IsNot)) else 'true'
+        for m_, l_ in g.succ[t]:
+            if l_ == lab and any(m_ is u or g.exists_path(m_, u) for u in unodes):
+                ok = True
+    run.inst(rule + '.search', f, 'a SUPER answer leads to another offer (the search loops outward)', ok,
+             '' if ok else 'after a state names its parent (SUPER) the event is not offered again: it never reaches the enclosing states', obligation=True)
+    # S5/S6: only handlers move the cursor in the search region; no other handler calls there
+    cw = [n for n in region if n.kind == 'stmt' and isinstance(n.ast, ast.Assign) and any(dotted(t) == selfn + '.temp.fun' for t in n.ast.targets)]
+    run.inst(rule + '.search', f, 'only handlers move the cursor during the search', not cw, 'dispatch rewrites temp.fun during the search', obligation=True)
+    other = [(n, c) for n, c, txt, sigs in sites if n in region and n not in unodes and (n, c) not in empties and n is not tt]
+    run.inst(rule + '.search', f, 'no other handler call during the search', not other, 'additional handler calls in the search: %s' % [norm(c) for n, c in other], obligation=True)
+    body = region
     # (b) outcome switch: every later handler call is on the TRAN branch
     after = [(n, c) for n, c, txt, sigs in sites if n not in body]
     tran_tests = [t for t in g.nodes if t.kind == 'test' and (_status_test(t, rv, 'TRAN', (ast.GtE, ast.Eq, ast.Is)))]
